@@ -66,12 +66,14 @@ ALWAYS_INLINE = {
     "reader::range_iter::end_contains",           # C04-R1/R3 read the far-side membership test as a region of RangeIter::next
     "reader::range_iter::start_contains",         # ... and of RevRangeIter::next
     "sorter::Sorter::<MF, CC>::threshold_exceeded",   # C08-R1/R2 read the budget comparison as an atom of Sorter::insert's condition
+    "reader::reader_cursor::IndexBlockCursor::new",   # C01-R2/C10-R3 read which trailer fields configure the index cursor in ReaderCursor::new, however they are handed over
 }
 
 
 def inline_unknown_helpers(raw, max_rounds=4):
     """raw: the fact file dict; mutates raw['bodies'] and returns the list of (caller, callee) inlined"""
     known = known_fns() - ALWAYS_INLINE
+    _into_is_from(raw)
     by_path = {}
     for b in raw["bodies"]:
         by_path.setdefault(b["path"], []).append(b)
@@ -104,6 +106,25 @@ def inline_unknown_helpers(raw, max_rounds=4):
         if not changed:
             break
     return done
+
+
+def _into_is_from(raw):
+    """`x.into()` is `U::from(x)` (std's blanket impl does nothing else): when that `From` impl is the crate's own,
+    name it, so that a conversion the pinned tree does not have is analysed like any other new helper"""
+    im = _impl_methods(raw)
+    for b in raw["bodies"]:
+        for blk in b["blocks"]:
+            t = blk["term"]
+            if t.get("t") != "call" or t.get("func", {}).get("k") != "const" or "fn" not in t["func"]:
+                continue
+            fn = t["func"]["fn"]
+            if fn.get("path") != "std::convert::Into::into" or len(fn.get("args") or []) != 2 or fn.get("resolved_local"):
+                continue
+            src, dst = fn["args"]
+            for i in im["impl"].get(("std::convert::From", _base(dst)), []):
+                if i["trait_ref"] == "<%s as std::convert::From<%s>>" % (dst, src) and i["trait_ref"] + "::from" in im["paths"]:
+                    fn.update({"path": "std::convert::From::from", "trait": "std::convert::From", "args": [dst, src],
+                               "resolved": i["trait_ref"] + "::from", "resolved_local": True, "via_into": True})
 
 
 def unknown_local_fns(raw):
